@@ -119,7 +119,7 @@ def sibling_case(case):
     root = common.tmpdir("c11s")
     try:
         cms = case["codemods"]
-        files = {}
+        files = dict(case.get("files") or {})
         for i in range(case["n"]):
             cid = rng.choice(cms)
             files[f"{rng.choice(['', 'pkg/'])}s{i}.py"] = rng.choice(seeds[cid])
@@ -129,15 +129,17 @@ def sibling_case(case):
         for rel in order:  # shuffled creation order
             e2e.write_project(full, {rel: files[rel]})
         args = ["--codemod-include", ",".join(cms), "--max-workers", str(case["workers"])]
-        rf = e2e.run(full, args)
-        tf = e2e.read_tree(full)
-        bad = []
-        for rel in files:
+        # each file on its own first, last file first (so that nothing a run may leave behind in the interpreter comes from a file
+        # that precedes it in the full project), then the full project
+        alone_out = {}
+        for rel in sorted(files, reverse=True):
             alone = root / ("alone-" + rel.replace("/", "_"))
             e2e.write_project(alone, {rel: files[rel]})
-            ra = e2e.run(alone, args)
-            if (alone / rel).read_bytes() != tf[rel]:
-                bad.append(rel)
+            e2e.run(alone, args)
+            alone_out[rel] = (alone / rel).read_bytes()
+        rf = e2e.run(full, args)
+        tf = e2e.read_tree(full)
+        bad = [rel for rel in files if alone_out[rel] != tf[rel]]
         return {"rc": rf["rc"], "bad": bad, "n": len(files), "changed": sum(1 for r in files if tf[r] != files[r].encode())}
     finally:
         shutil.rmtree(root, ignore_errors=True)
@@ -313,6 +315,11 @@ def search(ctx):
     # sibling independence + creation order with real codemods
     cases = [{"codemods": rng.sample(SIB_CODEMODS, rng.choice([1, 2])), "n": rng.randint(3, 6), "workers": rng.choice([1, 2, 4]), "seed": rng.randint(0, 10**9)}
              for _ in range(ctx.pick(8, 60))]
+    # a codemod that invents a fresh name looks at the names of the file it is in - not at those of the files processed before it
+    cases.append({"codemods": ["pixee:python/bad-lock-with-statement"], "n": 0, "workers": rng.choice([1, 2]), "seed": rng.randint(0, 10**9),
+                  "files": {"a_first.py": "import threading\nlock = object()\nrlock = object()\nwith threading.Lock():\n    print(lock)\n",
+                            "b_second.py": "import threading\nwith threading.Lock():\n    pass\nwith threading.RLock():\n    pass\n",
+                            "pkg/c_third.py": "import threading\n\n\ndef f():\n    with threading.Lock():\n        pass\n"}})
     for c, r in zip(cases, impl.pool_map(sibling_case, cases, procs=8)):
         if r[0] != "ok":
             ctx.broke("c11 sibling harness", r[1]); continue
